@@ -351,6 +351,92 @@ func cancelRaceBody(kind string, n int) func() {
 	}
 }
 
+// staggered: two tokens use the same catch event, one after the other. Token A listens; the
+// matching event and the arrival of token B (the answer to the task in front of it) are issued
+// at once. Whether B is in time for that delivery depends on the interleaving; either way each
+// token continues exactly once: after the race one or two requests of the task behind the catch
+// event, and if one, a further delivery while B listens brings the second.
+func StaggeredBody(kind string, deliver func(r *drv.Run), def drv.EventDef, timer bool) func() {
+	g := drv.NewGraph("c11stag_" + kind)
+	s, f, c, t0, ta, e := g.Add(drv.Start, "start"), g.Add(drv.AND, "F"), g.Add(drv.Catch, "ca"), g.Add(drv.Task, "t0"), g.Add(drv.Task, "ta"), g.Add(drv.End, "end")
+	c.Defs = []drv.EventDef{def}
+	g.Link(s, f, nil)
+	g.Link(f, c, nil)
+	g.Link(f, t0, nil)
+	g.Link(t0, c, nil)
+	g.Link(c, ta, nil)
+	g.Link(ta, e, nil)
+	defs := g.Parse()
+	return func() {
+		sig := "C11/staggered"
+		if timer {
+			sig = "C13/staggered"
+		}
+		r := drv.Open(g, defs, drv.OpenOpts{Timer: timer})
+		var w *drv.Wait
+		r.AfterStart = func() { w = r.WaitComplete(nil) }
+		r.StartAll()
+		verifrt.WaitIdle()
+		p := r.Pending("t0")
+		if p == nil || r.Listening["ca"] < 1 {
+			h.Fail(sig+"/listening", "after the start: t0 pending %v, catch event listening %d times", p != nil, r.Listening["ca"])
+			return
+		}
+		returned := 0
+		order := verifrt.Choose(2)
+		fire := func() { deliver(r); returned++ }
+		answer := func() { r.Answer(p); returned++ }
+		if order == 0 {
+			go fire()
+			go answer()
+		} else {
+			go answer()
+			go fire()
+		}
+		verifrt.WaitIdle()
+		if returned != 2 {
+			h.Fail(sig+"/calls-return", "%d of 2 calls (delivery, answer) returned; blocked: %v", returned, verifrt.LiveEnvGoroutines())
+			return
+		}
+		n := r.Requests("ta")
+		if n < 1 || n > 2 {
+			h.Fail(sig+"/continues", "token A was listening when the event was delivered and token B arrived at the same time: the task behind the catch event was requested %d times, want 1 or 2", n)
+			return
+		}
+		for extra := 0; n < 2 && extra < 2; extra++ {
+			// B is listening now: the next delivery is for it
+			go fire()
+			returned--
+			verifrt.WaitIdle()
+			if returned != 2 {
+				h.Fail(sig+"/calls-return", "a delivery at quiescence has not returned; blocked: %v", verifrt.LiveEnvGoroutines())
+				return
+			}
+			n = r.Requests("ta")
+			if n > 2 {
+				h.Fail(sig+"/continues-too-often", "two tokens, the task behind the catch event was requested %d times", n)
+				return
+			}
+			if !timer {
+				break
+			}
+		}
+		if n != 2 {
+			h.Fail(sig+"/does-not-continue", "token B reached the catch event while a delivery for token A was in progress; it was announced as listening (%d announcements) but a later delivery does not let it continue: the task behind the catch event was requested %d times, want 2", r.Listening["ca"], n)
+			return
+		}
+		for i := 0; i < 2; i++ {
+			if q := r.Pending("ta"); q != nil {
+				r.Answer(q)
+				verifrt.WaitIdle()
+			}
+		}
+		if w == nil || !w.Returned || !w.Result {
+			h.Fail(sig+"/completes", "both tokens are through but the instance has not completed")
+		}
+	}
+}
+
 func init() {
 	h.Register("C11", func(tier string) ([]*h.Scn, []*h.Plain) {
 		var out []*h.Scn
@@ -434,6 +520,35 @@ func init() {
 					}
 					out = append(out, sc)
 				}
+			}
+		}
+		for _, kind := range []string{"signal", "message"} {
+			kind := kind
+			deliver := func(r *drv.Run) {
+				if kind == "message" {
+					r.Message("A")
+				} else {
+					r.Signal("A")
+				}
+			}
+			ev := sig
+			if kind == "message" {
+				ev = msg
+			}
+			bounds := []int{0, 1}
+			if thorough {
+				bounds = append(bounds, 2)
+			}
+			for _, d := range bounds {
+				if d >= 1 && kind == "message" && !thorough {
+					continue
+				}
+				sc := &h.Scn{Name: fmt.Sprintf("C11/staggered/%s/d%d", kind, d), Body: StaggeredBody(kind, deliver, ev("A"), false), Opts: verifrt.Options{Bound: d, UseCache: true}}
+				sc.Weight = 4 * (1 + 300*d*d)
+				if d >= 1 {
+					sc.Split = 4 * d
+				}
+				out = append(out, sc)
 			}
 		}
 		for _, kind := range []string{"signal", "message"} {
